@@ -138,3 +138,39 @@ for n in (0, 1, 2):
       "if-expression with %d elseif branch(es); every child's value kind, knownness, real effect and analysis answer symbolic (answer never misses an effect)" % n,
       mode="lean", timeout_s=900, mem_gb=16, replay="se_if_%d" % n, stubs=[EVAL_STUB, SE_STUB], assumptions=[NATIVE_NOTE],
       tier="quick" if n == 2 else "thorough")
+
+SE_HELPER_NOTE = "native replay is not faithful for these private arms (they are reached natively only through has_side_effects): a counterexample is replayed through the public Evaluator::has_side_effects on the realised expression"
+for name, fn, bounds in [
+    ("c08_se_prefix_simple", "Evaluator::prefix_has_side_effects", "prefix in {identifier, call, parenthesised child}"),
+    ("c08_se_prefix_nested", "Evaluator::prefix_has_side_effects", "prefix in {P.name, P[key]} with P in {identifier, call, parenthesised child}"),
+    ("c08_se_field", "Evaluator::field_has_side_effects", "field access on the nested prefixes"),
+    ("c08_se_index", "Evaluator::index_has_side_effects", "index access (symbolic key child) on the nested prefixes"),
+    ("c08_se_type_instantiation", "Evaluator::type_instantiation_has_side_effects", "type instantiation of the nested prefixes"),
+]:
+    H(name, "c08_steps::" + name, ["C08", "C01"], [fn, "Evaluator::prefix_has_side_effects", "Evaluator::field_has_side_effects", "Evaluator::index_has_side_effects", "Evaluator::call_has_side_effects"],
+      bounds + "; both evaluator configurations; children's effects and analysis answers symbolic",
+      mode="lean", timeout_s=600, replay=None, stubs=[EVAL_STUB, SE_STUB],
+      assumptions=["under assume_pure_metamethods, indexing is taken to invoke no effectful metamethod (the configuration's contract)"])
+H("c08_se_table_entry", "c08_steps::c08_se_table_entry", ["C08", "C01"], ["Evaluator::table_entry_has_side_effects", "Evaluator::maybe_metatable"],
+  "the three table entry kinds with symbolic key/value children; maybe_metatable on every value kind", mode="lean", timeout_s=600,
+  replay=None, stubs=[EVAL_STUB, SE_STUB])
+H("c08_multiple_values_calls", "c08_steps::c08_multiple_values_calls", ["C08", "C01"], ["Evaluator::can_return_multiple_values"],
+  "7 expression forms: call, `...`, method call, (call), 16 binary operators on calls, unary on call, identifier",
+  mode="lean", timeout_s=600, mem_gb=16, replay="multiple_values_calls")
+H("c08_multiple_values_others", "c08_steps::c08_multiple_values_others", ["C08", "C01"], ["Evaluator::can_return_multiple_values"],
+  "7 expression forms: field, index, if-expression, table, nil, true, false",
+  mode="lean", timeout_s=600, mem_gb=16, replay="multiple_values_others", tier="thorough",
+  assumptions=["function, number, string, interpolated-string, type-cast and type-instantiation expressions are outside the bound"])
+
+# ---------------------------------------------------------------------------------------- C01 compute step
+for g in range(9):
+    H("c01_compute_and_or_g%d" % g, "c01_compute::c01_compute_and_or_g%d" % g, ["C01"], ["compute_expression::Computer::replace_with (and/or arms)", "LuaValue::is_truthy"],
+      "one `L and R` / `L or R` node, control scenarios of group %d of harness/src/c01_scenarios_g*.in (26 in all: operator x what evaluate(L) answers {nil, true, Unknown} x what has_side_effects answers for L and for the node x what evaluate(node) answers {nil, true, Unknown}); "
+      "operand values (any f64 for numbers), the right operand (leaf / call / `...`, value, effects) and the operands' real behaviour symbolic" % g,
+      tier="quick" if g == 0 else "thorough", mode="lean", timeout_s=1200, mem_gb=16, replay="compute_and_or_g%d" % g,
+      stubs=[EVAL_STUB, SE_STUB, "LuaValue::to_expression -> records the folded value and returns a marker (literal construction runs log10/powf)",
+             "<Expression as Clone>::clone -> copy of the harness's identifier leaves", "Computer::process_expression (the recursive re-processing of the replacement) -> no-op"],
+      assumptions=["under Kani both operands are identifier leaves whatever their shape: replace_with looks at operands only through evaluate / has_side_effects / clone",
+                   "the answers replace_with branches on are constants of each scenario (keeps CBMC out of the drop glue of Option<Expression> temporaries); evaluate(L) answering false/number/string/table/function is represented by `true`/`nil` of the same truthiness",
+                   "has_side_effects(L op R) is true whenever has_side_effects(L) is; evaluate(L op R) is definite only if the operands that decide it are known",
+                   "native replay runs the real Computer::replace_with (real evaluator, real clone) on realised operands"])
